@@ -281,11 +281,11 @@ func init() {
 		},
 		Floors: []Floor{
 			floorKey("WaitCond path rules", 5, "PATH/WaitCond/"),
-			floorKey("WaitCond watcher", 3, "/WaitCond$1/"),
+			floorKey("WaitCond watcher", 3, "/WaitCond$go1/"),
 			floorKey("WaitCond REL", 1, "REL/WaitCond/"),
 			floorKey("WL", 1, "WL/WaitCond/"),
-			floorKey("SL watcher", 1, "SL/WaitCond$1/"),
-			floorKey("getAsync provenance", 5, "PROV/(*Buffer).getAsync$1"),
+			floorKey("SL watcher", 1, "SL/WaitCond$go1/"),
+			floorKey("getAsync provenance", 5, "PROV/(*Buffer).getAsync$go1"),
 			floorRule("S Buffer predicates", "S", 5),
 			floorKey("locker held at Wait in every context", 1, "P/WaitCond/wait:"),
 		},
